@@ -34,6 +34,7 @@ structure SuFan where
   cfg : FanCfg := {}
   quant : Int := 0
   spinAt : Int := 30
+  panicAttach : Bool := false
   regs : Regs := {}
   store : DStore := {}
   deriving Inhabited
@@ -151,20 +152,30 @@ def startupStep (st : StartupDrvSt) (op : String) (a : KV) : StartupDrvSt × Str
     let id := a.str "fan" "f1"
     -- re-declaring an id keeps the database entries of that id; the device is a new one
     let old := match st.find? id with | some f => f.store | none => {}
-    let f : SuFan := { id := id, cfg := suCfg a, quant := a.int "quant" 0, spinAt := a.int "spinat" 30, store := old }
+    let f : SuFan := { id := id, cfg := suCfg a, quant := a.int "quant" 0, spinAt := a.int "spinat" 30, store := old,
+                       panicAttach := a.int "panicattach_us" 0 > 0 }
     ({ st with fans := (st.fans.filter (·.id != id)) ++ [f] }, "ok")
   | "su.start" =>
     match st.find? (a.str "fan" "f1") with
     | none => (st, "bad-op")
     | some f =>
       let o := startD indefAmd64 f.phys f.cfg f.store { f.regs with log := [] }
-      (st.setOut f.id o, suDOutLine o)
+      -- the limits the fan carries into regulation: those the curve now in the store yields
+      let lim := if o.ok && o.crash.isNone then suLimits { f with store := o.store } else "-"
+      (st.setOut f.id o, suDOutLine o ++ s!" lim={lim}")
   | "su.reset" =>
     match st.find? (a.str "fan" "f1") with
     | none => (st, "bad-op")
     | some f =>
       let o := resetD f.cfg f.regs
       (st.setOut f.id o, "ok " ++ suStored o.abs.store)
+  | "su.putrpm" =>
+    match st.find? (a.str "fan" "f1") with
+    | none => (st, "bad-op")
+    | some f =>
+      if f.cfg.kind != .hwmon then (st, "bad-op") else
+      let s : DStore := { f.store with rpm := some ((parseFloatMap (a.str "data" "-")).getD []) }
+      (st.update f.id fun f => { f with store := s }, "ok " ++ suStored s.abs)
   | "su.flaky" =>
     -- a transient failure of the 2nd (or later) look-up of the stored PWM map within ONE start: the start-up of the code
     -- that exists looks the map up once per start, so nothing changes (generators only use at >= 2)
@@ -215,6 +226,9 @@ def startupStep (st : StartupDrvSt) (op : String) (a : KV) : StartupDrvSt × Str
       match s.find? id with
       | none => (s, rs ++ ["bad-fan"], n)
       | some f =>
+        -- a fan whose driver panics when the stored curve is attached: that controller dies there (nothing of its own
+        -- was analysed, nothing stored); the others are not affected
+        if f.panicAttach then (s, rs ++ ["panic"], n) else
         let o := startD indefAmd64 f.phys f.cfg f.store { f.regs with log := [] }
         let (sw, me) := suFlags o
         (s.setOut f.id o, rs ++ [if o.ok then "ok" else "err"], if sw || me then n + 1 else n))
